@@ -119,6 +119,9 @@ func checkMain(args []string) {
 	defer os.RemoveAll(dir)
 	var engineErrs []string
 	for _, u := range append(append([]*Unit{}, units...), canaries...) {
+		if u.con.mode == "bounded" {
+			continue // executed only (below); no proof obligations
+		}
 		if err := u.run(); err != nil {
 			u.err = err
 			engineErrs = append(engineErrs, err.Error())
@@ -238,6 +241,7 @@ func checkMain(args []string) {
 		what string
 	}
 	var failures []failure
+	var boundedOnly []string
 	total, discharged, probes := 0, 0, 0
 	solverTime := 0.0
 	bySolver := map[string]int{}
@@ -248,6 +252,17 @@ func checkMain(args []string) {
 	knownHit := map[string]bool{}
 	for _, u := range units {
 		fi := map[string]any{"theory": u.m.mode.String(), "mode": "proved"}
+		if u.con.mode == "bounded" {
+			fi = map[string]any{"mode": "bounded (not proved): " + u.con.bounded}
+			boundedOnly = append(boundedOnly, "bounded stand-in (executed, not proved): "+u.name+" - "+u.con.bounded)
+			if r := execRes[u.con]; r == nil || !r.Supported || r.Executed == 0 {
+				why := "not run"
+				if r != nil {
+					why = r.Why
+				}
+				engineFail("bounded contract %s was not executed (%s)", u.name, why)
+			}
+		}
 		n, ok := 0, 0
 		if u.err != nil {
 			// a function the engine can no longer process is an undischarged obligation, not a pass
@@ -420,6 +435,7 @@ func checkMain(args []string) {
 		}
 	}
 	sort.Strings(assumed)
+	assumed = append(assumed, boundedOnly...)
 	var hit []string
 	for k, v := range assumptionsHit {
 		hit = append(hit, fmt.Sprintf("%s (x%d)", k, v))
